@@ -65,6 +65,18 @@ class DeclGen:
     def num_opts(self, kind):
         rng = self.rng
         d = {"k": kind}
+        if self.coin(0.12):
+            # only falsy bounds: every bound must be enforced because it is present, not because it is truthy
+            which = rng.choice(["min", "max", "both", "max-excl"])
+            if which in ("min", "both"):
+                d["min"] = [0, 1]
+            if which in ("max", "both", "max-excl"):
+                d["max"] = [0, 1]
+                if which == "max-excl":
+                    d["excl"] = True
+            if self.coin(0.3):
+                d["minFloat" if "min" in d else "maxFloat"] = True
+            return d
         if self.coin():
             d["mult"] = rng.choice([2, 3, 5])
         lo = hi = None
